@@ -14,6 +14,13 @@ ops (one per line; `T` = timeout in ms or `-`):
   `stop a reply:v|drop|keep|detach`       → graceful stop: the blocked handler (if any) finishes with the
                                              given action, then the actor stops: `handled p …|fwd v|idle`, events
   `advance d`                             → events
+  `spawnsup`                              → `ok`      (a supervisor; own index space)
+  `spawnl u`                              → `ok|failed` (callee spawned linked to supervisor u)
+  `suphandle u stash|drop`                → `evt a|idle`, events: u finishes handling the termination event (with
+                                             the child's last state) at the head of its queue
+  `supdrop u a`                           → `dropped|noevent`, events: u drops the stashed event of actor a
+  `supexit u`                             → events: u is killed (queue + stash dropped, children killed)
+  (`later p …` on a port inside a STASHED state = the supervisor takes it out of the state and uses it)
 events: ` | ` then `;`-separated, sorted: `done p=R`, `fdone p=R[+ok|+senderr]`, `mdone g=R1,R2…|err`
 with `R ::= success:v | senderError | timeout | sendErr`.
 -/
@@ -95,6 +102,8 @@ structure OS where
   replies : List (Nat × Nat) := []        -- (port, value) actually sent by the real callee
   groups : List (List Nat) := []          -- member ports per multi_call group
   expectFwd : List (Nat × Nat) := []      -- (target, value) forwards announced by `fdone …+ok`
+  asup : List (Option Nat) := []          -- per spawned actor: the supervisor it was linked to
+  supsAlive : List Bool := []             -- per supervisor: not yet killed by the harness
 
 structure DS where
   m : S := init
@@ -143,6 +152,9 @@ def judge (o : OS) (evs : List String) : OS × List String := Id.run do
         match o.calls[i]? with
         | some c =>
           if c.done then bad := bad ++ ["c09.call-completed-twice"]
+          -- SenderError only once the port is gone: never while a live actor, a detached task or a
+          -- termination event still held by a supervisor owns it
+          if r.startsWith "senderError" && c.hold != .gone then bad := bad ++ ["c09.sender-error-but-port-held"]
           if r.startsWith "timeout" then
             match c.deadline with
             | some d => if o.now < d then bad := bad ++ ["c09.timeout-early"]
@@ -158,7 +170,9 @@ def judge (o : OS) (evs : List String) : OS × List String := Id.run do
             for (p, ri) in List.zip ms rs do
               match successVal ri with
               | some v => if !(o.replies.contains (p, v)) then bad := bad ++ ["c09.multi-call-out-of-order-or-cross-wired"]
-              | none => pure ()
+              | none =>
+                if ri == "senderError" && (o.calls[p]?).any (fun c => c.hold != .gone) then
+                  bad := bad ++ ["c09.sender-error-but-port-held"]
           o := { o with calls := ms.foldl (fun cs p => cs.modify p (fun c => { c with done := true })) o.calls }
         | none => bad := bad ++ ["c09.unknown-group"]
     | none => if e != "" then bad := bad ++ ["unparsable-event"]
@@ -180,6 +194,21 @@ def setHold (o : OS) (p : Nat) (h : Hold) : OS :=
 def killHolds (o : OS) (a : Nat) : OS :=
   { o with calls := o.calls.map (fun c =>
       if c.hold == .mailbox a || c.hold == .kept a then { c with hold := .gone } else c) }
+
+/-- the last state of `a` is gone (never boxed, or its event was dropped): the ports in it are dropped -/
+def dropState (o : OS) (a : Nat) : OS :=
+  { o with calls := o.calls.map (fun c => if c.hold == .kept a then { c with hold := .gone } else c) }
+
+def supLive (o : OS) (a : Nat) : Bool :=
+  match (o.asup[a]?).join with
+  | some u => (o.supsAlive[u]?).getD false
+  | none => false
+
+/-- graceful exit of `a` (stop / drain completion): the mailbox is dropped; the state — with the
+ports kept in it — is dropped too UNLESS a live supervisor receives it inside the termination event -/
+def gracefulHolds (o : OS) (a : Nat) : OS :=
+  let o1 := { o with calls := o.calls.map (fun c => if c.hold == .mailbox a then { c with hold := .gone } else c) }
+  if supLive o a then o1 else dropState o1 a
 
 /-- `handled p [sent-ok|sent-err]` -/
 def applyHandled (o : OS) (a : Nat) (pre : String) (act : Act) : OS :=
@@ -217,7 +246,7 @@ def step (ds : DS) (op impl : String) : DS × StepOut :=
   let died (m m' : S) (o : OS) : OS :=
     (List.range m'.actors.length).foldl (fun o a =>
       match m.actors[a]?, m'.actors[a]? with
-      | some x, some x' => if x.alive && !x'.alive then killHolds o a else o
+      | some x, some x' => if x.alive && !x'.alive then gracefulHolds o a else o
       | _, _ => o) o
   let finish (m' : S) (pre : String) (o' : OS) (nt : Bool) (extraBad : List String := []) : DS × StepOut :=
     let model := fmt pre (events ds.m m')
@@ -233,7 +262,44 @@ def step (ds : DS) (op impl : String) : DS × StepOut :=
     finish ds.m "invalid-type undisturbed" ds.o true orc
   match words op with
   | ["case"] => ({}, { model := "ok" })
-  | ["spawn"] => run1 .spawn "ok" ds.o false
+  | ["spawn"] => run1 .spawn "ok" { ds.o with asup := ds.o.asup ++ [none] } false
+  | ["spawnsup"] => run1 .spawnSup "ok" { ds.o with supsAlive := ds.o.supsAlive ++ [true] } false
+  | ["spawnl", u] =>
+    match u.toNat? with
+    | some u =>
+      let o' := if ipre == "ok" then { ds.o with asup := ds.o.asup ++ [some u] } else ds.o
+      run1 (.spawnl u) (if supAlive ds.m u then "ok" else "failed") o' false
+    | none => (ds, { model := "bad-op" })
+  | ["suphandle", u, what] =>
+    match u.toNat? with
+    | some u =>
+      let keep := what == "stash"
+      let pre := match ds.m.sups[u]? with
+        | some x => if x.alive then (match x.inbox with | a :: _ => s!"evt {a}" | [] => "idle") else "idle"
+        | none => "idle"
+      -- the real supervisor dropped the event of the actor it names: the state in it is gone
+      let o' := match words ipre with
+        | ["evt", a] => (match a.toNat? with | some a => if keep then ds.o else dropState ds.o a | none => ds.o)
+        | _ => ds.o
+      run1 (.suphandle u keep) pre o' (ipre.startsWith "evt")
+    | none => (ds, { model := "bad-op" })
+  | ["supdrop", u, a] =>
+    match u.toNat?, a.toNat? with
+    | some u, some a =>
+      let pre := match ds.m.sups[u]? with
+        | some x => if x.alive && x.stash.contains a then "dropped" else "noevent"
+        | none => "noevent"
+      run1 (.supdrop u a) pre (if ipre == "dropped" then dropState ds.o a else ds.o) (ipre == "dropped")
+    | _, _ => (ds, { model := "bad-op" })
+  | ["supexit", u] =>
+    match u.toNat? with
+    | some u =>
+      -- the supervisor's queue and stash are dropped and its children are killed
+      let o1 := { ds.o with supsAlive := ds.o.supsAlive.set u false }
+      let o' := (List.range o1.asup.length).foldl (fun o a =>
+        if (o1.asup[a]?).join == some u then killHolds o a else o) o1
+      run1 (.supexit u) "ok" o' true
+    | none => (ds, { model := "bad-op" })
   | ["call", a, t] =>
     match a.toNat?, parseT? t with
     | some a, some t =>
@@ -288,6 +354,8 @@ def step (ds : DS) (op impl : String) : DS × StepOut :=
            | .detached, .reply _ => if c.res.isNone then "sent-ok" else "sent-err"
            | .actor _, .drop => "dropped"
            | .detached, .drop => "dropped"
+           | .event a, .reply _ => if supStashed ds.m.sups a then (if c.res.isNone then "sent-ok" else "sent-err") else "noport"
+           | .event a, .drop => if supStashed ds.m.sups a then "dropped" else "noport"
            | _, _ => "noport")
         | none => "noport"
       let o' := match act with
@@ -301,13 +369,17 @@ def step (ds : DS) (op impl : String) : DS × StepOut :=
   | ["badcall", _] => badOp
   | ["exit", a] =>
     match a.toNat? with
-    | some a => run1 (.exit a) "ok" (killHolds ds.o a) true
+    | some a =>
+      -- a kill never boxes the state: everything the (still alive) actor owned is dropped; killing an
+      -- actor that already stopped does not touch a state a supervisor may still hold
+      let wasAlive := match ds.m.actors[a]? with | some x => x.alive | none => false
+      run1 (.exit a) "ok" (if wasAlive then killHolds ds.o a else ds.o) true
     | none => (ds, { model := "bad-op" })
   | ["stop", a, act] =>
     match a.toNat?, parseAct? act with
     | some a, some act =>
       let pre := modelHandlePre ds.m a act
-      let o' := killHolds (applyHandled ds.o a ipre act) a
+      let o' := gracefulHolds (applyHandled ds.o a ipre act) a
       finish (Rpc.step ds.m (.stop a act)) pre o' true
     | _, _ => (ds, { model := "bad-op" })
   | ["drain", a] =>
@@ -315,7 +387,7 @@ def step (ds : DS) (op impl : String) : DS × StepOut :=
     | some a =>
       -- an actor with an empty mailbox stops at once and drops what it kept
       let idle := match ds.m.actors[a]? with | some x => x.mailbox.isEmpty | none => true
-      run1 (.drain a) "ok" (if idle then killHolds ds.o a else ds.o) true
+      run1 (.drain a) "ok" (if idle then gracefulHolds ds.o a else ds.o) true
     | none => (ds, { model := "bad-op" })
   | ["advance", d] =>
     match d.toNat? with
